@@ -33,7 +33,7 @@ CASE_TIMEOUT = 30.0
 MOD = __name__
 META = {
     "rule": "Hypothesis rule-based state machine: histories of <=30 (quick) / <=50 (thorough) operations parse / & / | / reparse / "
-    "variant over 22 base atoms x 4 spellings; every step is a probe compared warm vs cold. Non-trivial = a probe whose "
+    "variant over 28 base atoms x 4 spellings; every step is a probe compared warm vs cold. Non-trivial = a probe whose "
     "history contains, before it, an operation using one of the probe's atoms in a different spelling (equal but differently "
     "built operand); distinct by (history prefix, probe).",
     "assumptions": [
@@ -50,6 +50,9 @@ BASE = [
     # bounds one ~= step apart and X.Y / X.Y.0 twins: the rendering heuristics look at how a bound is *spelled*
     ("python_full_version", "<", "4.0"), ("python_version", ">=", "3.10"), ("python_full_version", "<=", "3.10.0"), ("python_full_version", ">", "3.10.0"),
     ("python_version", "<", "4.0"), ("python_full_version", ">=", "3.10"),
+    # a hole that can be written as a wildcard, and a range that can be written as ~=
+    ("python_full_version", "<", "3.8"), ("python_full_version", ">=", "3.9"), ("python_full_version", "!=", "3.8.*"), ("python_version", "<", "3.8"),
+    ("python_version", "~=", "3.8"), ("python_version", "<", "4"),
 ]
 REFL = M.REFLECT
 # atom pools of one history: related atoms (same variable, bounds one ~= step apart, X.Y / X.Y.0 twins) so that
@@ -57,14 +60,16 @@ REFL = M.REFLECT
 FAMILIES = [
     [21, 16, 17, 20], [17, 18, 19, 16], [0, 1, 2, 3], [2, 3, 15, 16], [17, 21, 16], [0, 4, 5, 1], [19, 18, 21, 20, 16],
     [6, 7, 8, 14], [9, 10, 6, 8], [11, 12, 6], [6, 8, 9, 0], [13, 0, 6],
+    [22, 23, 24, 25], [26, 27, 0, 25], [22, 23, 25, 0], [24, 22, 23, 1],
 ]
 
 
 def render_atom(base_id: int, variant: int) -> str:
     v, op, val = BASE[base_id]
-    if variant == 1 and op != "~=":
+    special = op == "~=" or val.endswith(".*")
+    if variant == 1 and not special:
         return f'"{val}" {REFL[op]} {v}'
-    if variant == 2:
+    if variant == 2 and not special:
         if v == "python_full_version" and val.count(".") < 2:
             return f'{v} {op} "{val}.0"'
         if v == "python_version" and val.count(".") == 1:
@@ -264,11 +269,74 @@ def tasks(tier, seed):
     shards = 32 if tier == "quick" else 128
     steps = 30 if tier == "quick" else 50
     t = [(MOD, "machines", (n // shards, seed * 1_000_003 + i, steps)) for i in range(shards)]
+    fams = range(len(FAMILIES)) if tier == "thorough" else [0, 2, 7, 12, 13, 15]
+    t += [(MOD, "two_step", (f, sh, 4)) for f in fams for sh in range(4)]
     if tier == "thorough":
         t += [(MOD, "fresh", (seed * 77 + i, 20)) for i in range(16)]
     else:
         t += [(MOD, "fresh", (seed * 77, 6))]
     return t
+
+
+def two_step(acc, fam_idx, shard, nshards):
+    """Exhaustive small scope: for one atom family, every history consisting of ONE binary operation on two atoms,
+    followed by every probe `x op y` and `(x op y) op z` over the family.  warm (after the history) vs cold."""
+    layer = "L1-two-step-histories"
+    acc.exhaustive_layers.add(layer)
+    mod = sys.modules[MOD]
+    fam = FAMILIES[fam_idx]
+    atoms = [["atom", b, 0] for b in fam]
+    import itertools
+
+    def leaf(a):
+        return ["parse", a, 0]
+
+    hist = [[op, leaf(x), leaf(y)] for op in ("and", "or") for x, y in itertools.product(atoms, repeat=2)]
+    probes = [[op, leaf(x), leaf(y)] for op in ("and", "or") for x, y in itertools.product(atoms, repeat=2)]
+    probes += [[op2, [op1, leaf(x), leaf(y)], leaf(z)] for op1 in ("and", "or") for op2 in ("and", "or") for x, y, z in itertools.product(atoms, repeat=3)]
+    cold_obs = {}
+    for pi, p in enumerate(probes):
+        if pi % nshards != shard:
+            continue
+        try:
+            cold_obs[pi] = cold(p)
+        except Exception:  # noqa: BLE001  (a crash is C02's business)
+            continue
+        for h in hist:
+            acc.evaluations += 1
+            acc.layers[layer] += 1
+            harness.reset_caches()
+            try:
+                compute(h)
+                w = observe(compute(p))
+            except Exception:  # noqa: BLE001
+                continue
+            acc.oracle_evaluations += 1
+            if h != p:
+                acc.nontrivial_exhaustive += 1
+            d = diff_kind(w, cold_obs[pi])
+            if d:
+                ops = _recipe_to_ops(h)
+                ops = ops + _recipe_to_ops(p, base=len(ops))
+                harness.process(mod, acc, "history", {"ops": ops}, layer, isolate=False)
+    if shard == 0:
+        acc.sample({"family": [render_atom(b, 0) for b in fam], "histories": len(hist), "probes": len(probes)}, layer)
+
+
+def _recipe_to_ops(r, base=0):
+    """Flatten a recipe (over variant-0 parses) into an op list whose indices start at `base`."""
+    out = []
+
+    def go(x):
+        if x[0] == "parse":
+            out.append(["parse", x[1]])
+            return base + len(out) - 1
+        i, j = go(x[1]), go(x[2])
+        out.append([x[0], i, j])
+        return base + len(out) - 1
+
+    go(r)
+    return out
 
 
 def machines(acc, n, seed, steps):
